@@ -11,6 +11,10 @@
 //@ fragment: RESTORE :: src/debugger/call/mod.rs :: impl CallContext<'a> / fn retrieve_original_state :: `self.regs.clone().persist(self.pid)?;` .. `Ok(())`
 //@ harness: name=c16_restore prop=C16 unit=C16.restore mode=complete fn="CallContext::retrieve_original_state" timeout=600
 //@ assume: C16.restore: `self.dbg.write_memory` is replaced by a recorder with the signature of Debugger::write_memory (one PTRACE_POKEDATA); nix::sys::ptrace::setregs is stubbed by a recorder
+//@ anchor: src/debugger/call/mod.rs :: impl Debugger / fn with_disabled_brkpts
+//@ fragment: WDB :: src/debugger/call/mod.rs :: impl Debugger / fn with_disabled_brkpts :: `BEGIN` .. `END`
+//@ harness: name=c16_with_disabled prop=C16,C02 unit=C16.with_disabled_brkpts mode=bounded bound="two active breakpoints" fn="Debugger::with_disabled_brkpts" timeout=900
+//@ assume: C16.with_disabled_brkpts: `self.breakpoints.active_breakpoints()` is replaced by a two-element recorder list (std HashMap values) and Breakpoint::enable/disable by flag recorders (the patch primitive itself is proved as C02.patch.*)
 //@ harness: name=c16_reg_for_no prop=C16 unit=C16.reg_for_no mode=complete fn="get_reg_for_no"
 //@ harness: name=c16_prepare prop=C16 unit=C16.prepare mode=complete fn="CallArgs::prepare_registers" timeout=600
 //@ notcovered: liter_to_arg_bin_repr (needs a populated ComplexType HashMap), mmap/munmap/jump sequencing through ptrace, exactly-once execution, error paths of with_ccx, vard/argd formatting, the CallCache
@@ -173,4 +177,38 @@ fn c16_restore() {
         assert!(SETREGS_CALLS == 1 && SETREGS_IMG == words, "C16.restore.E1 every register is restored to the value saved before the call");
         assert!(POKE_CALLS == 1 && POKE_ADDR == pc && POKE_VAL == text, "C16.restore.E2 the code word at the saved pc is restored to the saved text");
     }
+}
+
+
+// ---- breakpoints are disabled around an injected call and re-armed afterwards, also when the call is rejected
+struct BpFlag { armed: core::cell::Cell<bool> }
+impl BpFlag {
+    fn disable(&self) -> Result<(), Error> { self.armed.set(false); Ok(()) }
+    fn enable(&self) -> Result<(), Error> { self.armed.set(true); Ok(()) }
+}
+struct TwoBps { a: BpFlag, b: BpFlag }
+impl TwoBps { fn active_breakpoints(&self) -> Vec<&BpFlag> { vec![&self.a, &self.b] } }
+struct DbgShim { breakpoints: TwoBps, seen_disarmed: core::cell::Cell<bool> }
+impl DbgShim {
+    fn with_disabled_brkpts<F>(&self, f: F) -> Result<(), Error>
+    where
+        F: FnOnce(&Self) -> Result<(), Error>,
+    {
+        /*@@FRAGMENT:WDB*/
+    }
+}
+
+#[kani::proof]
+#[kani::unwind(4)]
+fn c16_with_disabled() {
+    let d = DbgShim { breakpoints: TwoBps { a: BpFlag { armed: core::cell::Cell::new(true) }, b: BpFlag { armed: core::cell::Cell::new(true) } }, seen_disarmed: core::cell::Cell::new(false) };
+    let reject: bool = kani::any();
+    let r = d.with_disabled_brkpts(|dd| {
+        dd.seen_disarmed.set(!dd.breakpoints.a.armed.get() && !dd.breakpoints.b.armed.get());
+        if reject { Err(Error::ProcessNotStarted) } else { Ok(()) }
+    });
+    assert!(d.seen_disarmed.get(), "C16.with_disabled_brkpts.E1 every breakpoint is disarmed while the injected call runs");
+    assert!(d.breakpoints.a.armed.get() && d.breakpoints.b.armed.get(), "C16.with_disabled_brkpts.E2 every breakpoint is armed again afterwards, also when the call was rejected");
+    assert!(r.is_err() == reject, "C16.with_disabled_brkpts.E3 the outcome of the call is reported");
+    core::mem::forget(r);
 }
